@@ -194,6 +194,9 @@ func shrinkVal(v *Val) []*Val {
 	walk = func(n *Val, rebuild func(*Val) *Val) {
 		switch n.K {
 		case 'o':
+			if len(out) > 400 {
+				return // enough candidates for one step
+			}
 			for i := range n.Keys {
 				i := i
 				c := n.clone()
@@ -212,6 +215,17 @@ func shrinkVal(v *Val) []*Val {
 				})
 			}
 		case 'a':
+			if len(n.Elems) > 32 {
+				// a long array: halves and quarters instead of one candidate
+				// per element (each candidate is a clone of the whole document)
+				m := len(n.Elems)
+				for _, cut := range [][2]int{{0, m / 2}, {m / 2, m}, {0, m / 4}, {m - m/4, m}, {m / 4, m - m/4}} {
+					c := n.clone()
+					c.Elems = append(c.Elems[:cut[0]:cut[0]], c.Elems[cut[1]:]...)
+					out = append(out, rebuild(c))
+				}
+				return
+			}
 			for i := range n.Elems {
 				i := i
 				c := n.clone()
